@@ -105,8 +105,10 @@ fn loc_file(loc: &str) -> String {
 }
 
 fn short(msg: &str) -> String {
-    // digits are replaced so that a message carrying data values gives one signature
-    let mut s: String = msg
+    // digits are replaced and the text is cut at the first quote or parenthesis, so that a
+    // message carrying data values gives one signature
+    let cut = msg.find(['"', '(', '\'', '[']).unwrap_or(msg.len());
+    let mut s: String = msg[..cut]
         .chars()
         .take(60)
         .map(|c| if c.is_ascii_digit() { '#' } else { c })
@@ -213,6 +215,7 @@ impl H {
                 } else {
                     format!("panic/{}/{}", loc_file(&loc), short(&msg))
                 };
+                let desc = self.sh.cur_desc.lock().unwrap().clone();
                 self.violation(
                     idx,
                     &sig,
@@ -224,6 +227,15 @@ impl H {
                 None
             }
         }
+    }
+
+    /// Refine the description of the running case (shown if it panics, hangs or aborts)
+    pub fn set_desc(&self, desc: &str) {
+        let idx = self.sh.cur_idx.load(Ordering::SeqCst);
+        let mut line = format!("B\t{idx}\t");
+        crate::json::escape(desc, &mut line);
+        self.wal(&line);
+        *self.sh.cur_desc.lock().unwrap() = desc.to_string();
     }
 
     pub fn violation(&self, idx: u64, sig: &str, detail: J) {
